@@ -632,6 +632,10 @@ let exec (s : t) (verbose : bool) (f : string array) (obs : string option) : str
      | Some { m_marker = Some _; m_hint = None; _ } -> "nohint"
      | _ -> "none")
   | "straylock" -> ""
+  | "putfail" ->
+    (* a Put whose write the operating system refused: it reports the error and nothing changed (the harness
+       injects the fault only when no rotation precedes the write; otherwise the operation is skipped) *)
+    (match obs with Some o when String.length o >= 4 && String.sub o 0 4 = "skip" -> "skip" | _ -> "err io")
   | "hostileget" ->
     (* concurrent readers of the first three live keys: for the model, reads of those keys *)
     (match s.db with
